@@ -1,26 +1,42 @@
-(* Data/MapK.v — strings (KV) in the Map model: one engine key  KVKey "table:key" |-> value
-   (the value header {ExpireAt, ValueVersion} of wait_compact and the trailing modify timestamp are
-   not part of the observable value; expiry is outside this model, see Map.v).
+(* Data/MapK.v — strings (KV) in the Map model: one engine key  KVKey "table:key" |-> (ExpireAt, value)
+   (ExpireAt is the field of the value header {ExpireAt, ValueVersion} stored in front of the value
+   under wait_compact, 0 = none; under local_deletion no header is stored and the field stays 0; the
+   trailing modify timestamp is not part of the observable value).
    Transcribed (post-fix working tree):
-     rockredis/t_kv.go  setKV KVSet KVSetWithOpts SetNX KVGetSet incr Incr IncrBy Append SetRange kvDel DelKeys
+     rockredis/t_kv.go  setKV KVSet KVSetWithOpts SetNX SetEx KVGetSet incr Incr IncrBy Append SetRange kvDel DelKeysAt
+                        prepareKVValueForWrite resetWithNewKVValue getRawDBKVValue Expire Persist
                         KVGet MGet GetRange getRange StrLen KVExists convertRedisKeyToDBKVKey
-     node/keys.go       local*Command and the read handlers
+     rockredis/t_ttl.go KVTtl expireWhen      node/keys.go node/ttl.go  local*Command and the read handlers
+   An expired value is still stored (the compaction filter drops it later): every command decides
+   with the header and its own clock (the raft entry timestamp for writes, the wall clock for reads).
    No proofs in this file. *)
 From ZV Require Export Data.Base.
-From ZV Require Import Data.Consts.
+From ZV Require Import Data.Consts Data.Exp.
 Open Scope Z_scope.
 
 Inductive kcmd :=
 | KCset (k v : bytes) | KCsetnx (k v : bytes) | KCgetset (k v : bytes)
 | KCincrby (k : bytes) (d : Z) | KCappend (k v : bytes) | KCsetrange (k : bytes) (off : Z) (v : bytes)
-| KCdel (ks : list bytes) | KCinvalid.
+| KCdel (ks : list bytes)
+| KCsetex (k : bytes) (dur : Z) (v : bytes) | KCexpire (k : bytes) (dur : Z) | KCpersist (k : bytes)
+| KCinvalid.
 Inductive kqry :=
 | KQget (key : bytes) | KQstrlen (key : bytes) | KQexists (keys : list bytes)
-| KQmget (keys : list bytes) | KQgetrange (key : bytes) (s e : Z) | KQinvalid.
+| KQmget (keys : list bytes) | KQgetrange (key : bytes) (s e : Z) | KQttl (key : bytes) | KQinvalid.
 
-Definition kvrec := bytes.
+Definition kvrec := (Z * bytes)%type.
 Definition kstore := list (bytes * kvrec).
-Definition kget (k : bytes) (m : kstore) : option bytes := aget bytes_eqb k m.
+(* getRawDBKVValue + isExpired: the stored value unless it is expired at clock t *)
+Definition klive (compact : bool) (t : Z) (k : bytes) (m : kstore) : option kvrec :=
+  match aget bytes_eqb k m with
+  | Some (e, v) => if dead compact e t then None else Some (e, v)
+  | None => None
+  end.
+Definition kget (compact : bool) (t : Z) (k : bytes) (m : kstore) : option bytes :=
+  match klive compact t k m with Some (_, v) => Some v | None => None end.
+(* the header a rewrite keeps: prepareKVValueForWrite renews an expired one (ExpireAt 0) *)
+Definition kexp (compact : bool) (t : Z) (k : bytes) (m : kstore) : Z :=
+  match klive compact t k m with Some (e, _) => e | None => 0 end.
 
 Fixpoint zeros (n : nat) : bytes := match n with O => [] | S k => 0%N :: zeros k end.
 (* SetRange: pad with zero bytes up to offset, overwrite, keep the tail *)
@@ -38,65 +54,100 @@ Definition get_range (value : bytes) (s e : Z) : bytes :=
   let e := if len <=? e then len - 1 else e in
   if e <? s then [] else firstn (Z.to_nat (e - s + 1)) (skipn (Z.to_nat s) value).
 
-Definition kstep (ts : Z) (c : kcmd) (m : kstore) : kstore * reply :=
+Definition kstep (compact : bool) (ts : Z) (c : kcmd) (m : kstore) : kstore * reply :=
+  let get k := kget compact ts k m in
   match c with
   | KCinvalid => (m, RErr)
   | KCset k v =>
-      if negb (key_ok k) || negb (value_ok v) then (m, RErr) else (aput bytes_eqb k v m, RInt 1)
+      (* resetWithNewKVValue: a fresh header, no expiry *)
+      if negb (key_ok k) || negb (value_ok v) then (m, RErr) else (aput bytes_eqb k (0, v) m, RInt 1)
+  | KCsetex k dur v =>
+      if dur <=? 0 then (m, RErr)
+      else if negb (key_ok k) || negb (value_ok v) then (m, RErr)
+      else if compact then
+        if when_overflows (sec_of ts + dur) then (m, RErr) else (aput bytes_eqb k (sec_of ts + dur, v) m, RNil)
+      else if int64_max <? sec_of ts + dur then (m, RErr) else (aput bytes_eqb k (0, v) m, RNil)
   | KCsetnx k v =>
       if negb (value_ok v) || negb (key_ok k) then (m, RErr)
-      else match kget k m with Some _ => (m, RInt 0) | None => (aput bytes_eqb k v m, RInt 1) end
+      else match get k with Some _ => (m, RInt 0) | None => (aput bytes_eqb k (0, v) m, RInt 1) end
   | KCgetset k v =>
       if negb (value_ok v) || negb (key_ok k) then (m, RErr)
-      else (aput bytes_eqb k v m, ropt (kget k m))
+      else (aput bytes_eqb k (0, v) m, ropt (get k))
   | KCincrby k d =>
       if negb (key_ok k) then (m, RErr)
-      else match (match kget k m with Some b => parse_int64 b | None => Some 0 end) with
+      else match (match get k with Some b => parse_int64 b | None => Some 0 end) with
            | None => (m, RErr)
            | Some n0 => if negb (in_int64 (n0 + d)) then (m, RErr)       (* fix 2957433 *)
-                        else (aput bytes_eqb k (format_int (n0 + d)) m, RInt (n0 + d))
+                        else (aput bytes_eqb k (kexp compact ts k m, format_int (n0 + d)) m, RInt (n0 + d))
            end
   | KCappend k v =>
       if negb (key_ok k) then (m, RErr)
-      else match kget k m, v with
+      else match get k, v with
            | Some old, [] => (m, RInt (blen old))                        (* fix ffad9c5 *)
            | o, _ =>
                let old := match o with Some b => b | None => [] end in
                if max_value_size <? blen old + blen v then (m, RErr)
-               else (aput bytes_eqb k (old ++ v) m, RInt (blen old + blen v))
+               else (aput bytes_eqb k (kexp compact ts k m, old ++ v) m, RInt (blen old + blen v))
            end
   | KCsetrange k off v =>
       if (off <? 0) || (max_value_size <? off) then (m, RErr)        (* fix 50b937d: no slice panic *)
       else match v with
       | [] => if negb (key_ok k) then (m, RErr)
-              else (m, RInt (match kget k m with Some b => blen b | None => 0 end))   (* fix 634fbd2 *)
+              else (m, RInt (match get k with Some b => blen b | None => 0 end))   (* fix 634fbd2 *)
       | _ =>
         if max_value_size <? blen v + off then (m, RErr)
         else if negb (key_ok k) then (m, RErr)
-        else let nv := set_range (match kget k m with Some b => b | None => [] end) (Z.to_nat off) v in
-             (aput bytes_eqb k nv m, RInt (blen nv))
+        else let nv := set_range (match get k with Some b => b | None => [] end) (Z.to_nat off) v in
+             (aput bytes_eqb k (kexp compact ts k m, nv) m, RInt (blen nv))
       end
   | KCdel ks =>
-      (* a key repeated in the call is deleted once (fix efaa8cd); a malformed key counts 0 *)
+      (* a key repeated in the call is deleted once (fix efaa8cd); a malformed key counts 0; a stored
+         but expired value is removed and not counted (fix 355630d) *)
       let ks' := dedup [] ks in
-      let n := Z.of_nat (length (filter (fun k => key_ok k && amem bytes_eqb k m) ks')) in
+      let n := Z.of_nat (length (filter (fun k => key_ok k && match get k with Some _ => true | None => false end) ks')) in
       (fold_left (fun m k => if key_ok k then adel bytes_eqb k m else m) ks' m, RInt n)
+  | KCexpire k dur =>
+      if negb (key_ok k) then (m, RErr)
+      else match klive compact ts k m with
+           | None => (m, RInt 0)
+           | Some (_, v) =>
+               if compact then
+                 if when_overflows (expire_when ts dur) then (m, RErr)
+                 else (aput bytes_eqb k (expire_when ts dur, v) m, RInt 1)
+               else if int64_max <? sec_of ts + dur then (m, RErr) else (m, RInt 1)
+           end
+  | KCpersist k =>
+      if negb (key_ok k) then (m, RErr)
+      else match klive compact ts k m with
+           | None => (m, RInt 0)
+           | Some (_, v) => if compact then (aput bytes_eqb k (0, v) m, RInt 1) else (m, RErr)
+           end
   end.
 
-Definition kquery (q : kqry) (m : kstore) : reply :=
+Definition kquery (compact : bool) (now : Z) (q : kqry) (m : kstore) : reply :=
+  let get k := kget compact now k m in
+  let has k := match get k with Some _ => true | None => false end in
   match q with
   | KQinvalid => RErr
-  | KQget k => if negb (key_ok k) then RErr else ropt (kget k m)
-  | KQstrlen k => if negb (key_ok k) then RErr else RInt (match kget k m with Some b => blen b | None => 0 end)
+  | KQget k => if negb (key_ok k) then RErr else ropt (get k)
+  | KQstrlen k => if negb (key_ok k) then RErr else RInt (match get k with Some b => blen b | None => 0 end)
   | KQexists ks =>
       match ks with
-      | [k] => if negb (key_ok k) then RErr else rbool (amem bytes_eqb k m)
-      | _ => RInt (Z.of_nat (length (filter (fun k => key_ok k && amem bytes_eqb k m) ks)))
+      | [k] => if negb (key_ok k) then RErr else rbool (has k)
+      | _ => RInt (Z.of_nat (length (filter (fun k => key_ok k && has k) ks)))
       end
-  | KQmget ks => RArr (map (fun k => if key_ok k then ropt (kget k m) else RNil) ks)
+  | KQmget ks => RArr (map (fun k => if key_ok k then ropt (get k) else RNil) ks)
   | KQgetrange k s e =>
       if negb (key_ok k) then RErr
-      else RBulk (get_range (match kget k m with Some b => b | None => [] end) s e)
+      else RBulk (get_range (match get k with Some b => b | None => [] end) s e)
+  | KQttl k =>
+      (* KVTtl: the header of the stored value, expired or not *)
+      if negb compact then RInt (-1)            (* localExpiration: no header is read at all *)
+      else if negb (key_ok k) then RErr
+      else match aget bytes_eqb k m with
+           | Some (e, _) => RInt (ttl_of e now)
+           | None => RInt (-1)
+           end
   end.
 
 (* ---------- argument parsing (node/keys.go) ---------- *)
@@ -119,6 +170,18 @@ Definition parse_k (n : bytes) (args : list bytes) : option (kcmd + kqry) :=
     | _ => None
     end
   else if kname n [100;101;108] then Some (inl (KCdel args))
+  else if kname n [115;101;116;101;120] then                                  (* setex: strconv.Atoi *)
+    match args with
+    | [k; d; v] => match parse_int64 d with Some z => Some (inl (KCsetex k z v)) | None => Some (inl KCinvalid) end
+    | _ => None
+    end
+  else if kname n [101;120;112;105;114;101] then                              (* expire *)
+    match args with
+    | [k; d] => match parse_int64 d with Some z => Some (inl (KCexpire k z)) | None => Some (inl KCinvalid) end
+    | _ => None
+    end
+  else if kname n [112;101;114;115;105;115;116] then match args with [k] => Some (inl (KCpersist k)) | _ => None end
+  else if kname n [116;116;108] then match args with [k] => Some (inr (KQttl k)) | _ => None end
   else if kname n [103;101;116] then match args with [k] => Some (inr (KQget k)) | _ => None end
   else if kname n [115;116;114;108;101;110] then match args with [k] => Some (inr (KQstrlen k)) | _ => None end
   else if kname n [101;120;105;115;116;115] then Some (inr (KQexists args))
